@@ -206,7 +206,7 @@ func c03BufProtocol(c *Ctx, fnName, bufField string, fallible ...string) {
 	bad := ""
 	var badPos ssa.Instruction
 	for _, in := range calls {
-		arg := in.(*ssa.Call).Call.Args[1]
+		arg := BaselineArgs(&in.(*ssa.Call).Call)[1]
 		if Term(arg) == "$r.buf" {
 			continue
 		}
